@@ -232,3 +232,648 @@ Proof.
   - split; [constructor; assumption|]. intros Hs Hd. rewrite Hs, Hd in E. discriminate E.
 Qed.
 
+(* ---------------------------------------------------------------------- *)
+(* every step preserves the invariant                                       *)
+
+Lemma NoDup_app_snoc {A} (l : list A) x : NoDup l -> ~ In x l -> NoDup (l ++ [x]).
+Proof.
+  induction l as [|a l IH]; intros Hn Hx; cbn [app]; [constructor; [intros []|constructor]|].
+  inversion Hn as [|? ? Ha Hl]; subst. constructor.
+  - intros Hin. apply in_app_or in Hin. destruct Hin as [Hin|[->|[]]]; [exact (Ha Hin)|].
+    apply Hx. left. reflexivity.
+  - apply IH; [exact Hl|]. intros Hin. apply Hx. right. exact Hin.
+Qed.
+
+Lemma any_alive_nonempty s : any_alive s = true -> ws s <> [].
+Proof. unfold any_alive. destruct (ws s); [discriminate|discriminate]. Qed.
+
+Lemma step_dispatch s s' : Inv s -> step s (EDispatch true) = Some s' -> Inv s'.
+Proof.
+  intros [[T Q Q2 L2 L3 S T7 Ja Jb P1 P2 W0] C] H. cbn [step] in H.
+  assert (Ej : jp s = JIdle) by (destruct (jp s); try discriminate H; reflexivity).
+  rewrite Ej in H.
+  destruct (any_alive s) eqn:Ea; [|discriminate H]. injection H as <-.
+  assert (Hsend : sender s = true) by (apply Ja; exact Ej).
+  destruct Q as [Qn Qi].
+  assert (Hfresh : ~ In (length (ts s)) (q s)).
+  { intros Hin. destruct (Qi _ Hin) as (x & Hx & _).
+    assert (length (ts s) < length (ts s)) by (apply nth_error_Some; congruence). lia. }
+  split.
+  - constructor; cbn [conc sender q ws ts jp w_q w_ts].
+    + apply Forall_app. split; [exact T|]. constructor; [|constructor]. cbn. repeat split.
+    + split.
+      * apply NoDup_app_snoc; assumption.
+      * intros t Hin. apply in_app_or in Hin. destruct Hin as [Hin|[<-|[]]].
+        -- destruct (Qi _ Hin) as (x & Hx & Hp). exists x. split; [|exact Hp].
+           rewrite nth_error_app1; [exact Hx|]. apply nth_error_Some. congruence.
+        -- eexists. split; [rewrite nth_error_app2 by lia; rewrite Nat.sub_diag; reflexivity|reflexivity].
+    + intros t x Hx Hp. apply in_or_app. apply nth_app_cases in Hx.
+      destruct Hx as [Hx|[-> _]]; [left; eapply Q2; eauto|right; left; reflexivity].
+    + intros t x w Hx Hp. apply nth_app_cases in Hx. destruct Hx as [Hx|[_ ->]]; [eapply L2; eauto|discriminate Hp].
+    + intros t x w Hx Hp. apply nth_app_cases in Hx. destruct Hx as [Hx|[_ ->]]; [eapply L3; eauto|discriminate Hp].
+    + intros Hc t x w Hx Hp. apply nth_app_cases in Hx. destruct Hx as [Hx|[_ ->]]; [eapply S; eauto|discriminate Hp].
+    + intros w Hw. destruct (T7 w Hw) as [_ Hs]. congruence.
+    + exact Ja.
+    + exact Jb.
+    + intros Hc t x w Hx Hp. apply nth_app_cases in Hx. destruct Hx as [Hx|[_ ->]]; [eapply P1; eauto|discriminate Hp].
+    + intros t x Hx Hp. apply nth_app_cases in Hx. destruct Hx as [Hx|[_ ->]]; [eapply P2; eauto|discriminate Hp].
+    + intros _. apply any_alive_nonempty. exact Ea.
+  - intros Hs. cbn in Hs. congruence.
+Qed.
+
+Lemma step_boot s w ok s' : Inv s -> step s (EBoot w ok) = Some s' -> Inv s'.
+Proof.
+  intros [[T Q Q2 L2 L3 S T7 Ja Jb P1 P2 W0] C] H. cbn [step] in H.
+  destruct (nth_error (ws s) w) as [p|] eqn:Ew; [|discriminate H].
+  destruct p; try discriminate H. injection H as <-. apply cleanup_inv.
+  set (pn := if ok then WRecv else WDead true).
+  constructor; cbn [conc sender q ws ts jp w_ws]; auto.
+  - intros t x v Hx Hp. pose proof (L2 _ _ _ Hx Hp) as Hv.
+    destruct (Nat.eq_dec v w) as [->|Hne]; [congruence|]. rewrite nth_upd_neq by exact Hne. exact Hv.
+  - intros t x v Hx Hp. destruct (L3 _ _ _ Hx Hp) as (p & Hv & Hr).
+    destruct (Nat.eq_dec v w) as [->|Hne].
+    + rewrite Ew in Hv. injection Hv as <-. discriminate Hr.
+    + exists p. rewrite nth_upd_neq by exact Hne. split; assumption.
+  - intros Hc t x v Hx Hp. pose proof (S Hc _ _ _ Hx Hp) as Hv.
+    destruct (Nat.eq_dec v w) as [->|Hne]; [congruence|]. rewrite nth_upd_neq by exact Hne. exact Hv.
+  - intros v Hv. apply T7 with (w := v).
+    destruct (Nat.eq_dec v w) as [->|Hne].
+    + rewrite (nth_upd_eq _ _ _ _ Ew) in Hv. unfold pn in Hv.
+      destruct ok, Hv as [Hv|Hv]; discriminate Hv.
+    + rewrite nth_upd_neq in Hv by exact Hne. exact Hv.
+  - intros p Hj. destruct (Jb p Hj) as [Hd _]. unfold all_dead in Hd.
+    pose proof (all_dead_nth _ _ _ Hd Ew) as Hx. discriminate Hx.
+  - intros Hc t x v Hx Hp. pose proof (P1 Hc _ _ _ Hx Hp) as Hv.
+    destruct (Nat.eq_dec v w) as [->|Hne]; [congruence|]. rewrite nth_upd_neq by exact Hne. exact Hv.
+  - intros t x Hx Hp v p Hv. pose proof (P2 _ _ Hx Hp _ _ Ew) as Hb. discriminate Hb.
+  - intros Hn Hu. apply (W0 Hn). apply (f_equal (@length wpc)) in Hu. rewrite upd_length in Hu.
+    destruct (ws s); [reflexivity|discriminate Hu].
+Qed.
+
+Lemma step_recv s w t s' : Inv s -> step s (ERecv w t) = Some s' -> Inv s'.
+Proof.
+  intros [[T Q Q2 L2 L3 S T7 Ja Jb P1 P2 W0] C] H. cbn [step] in H.
+  destruct (nth_error (ws s) w) as [p|] eqn:Ew; [|discriminate H].
+  destruct p; try discriminate H.
+  destruct (q s) as [|h r] eqn:Eq; [discriminate H|].
+  destruct (Nat.eqb h t) eqn:Eh; [|discriminate H]. apply Nat.eqb_eq in Eh. subst h.
+  destruct (nth_error (ts s) t) as [x0|] eqn:Et; [|discriminate H]. injection H as <-.
+  destruct Q as [Qn Qi]. inversion Qn as [|? ? Hnotin Hnr]; subst.
+  assert (Hq0 : ph x0 = TQueued).
+  { destruct (Qi t (or_introl eq_refl)) as (x & Hx & Hp). congruence. }
+  pose proof (Forall_nth _ _ _ _ T Et) as Ht0. unfold tinv in Ht0. rewrite Hq0 in Ht0.
+  destruct Ht0 as (Hr0 & Hs0 & Hst0 & Hrc0).
+  assert (Halive : forallb is_dead (upd (ws s) w (WSpawn t)) = false).
+  { eapply alive_not_all_dead; [apply (nth_upd_eq _ _ _ _ Ew)|reflexivity]. }
+  split.
+  - constructor; cbn [conc sender q ws ts jp w_q w_ws w_ts].
+    + apply Forall_upd; [exact T|]. unfold tinv. cbn. rewrite Hr0, Hs0, Hst0, Hrc0. repeat split.
+    + split; [exact Hnr|]. intros j Hj.
+      assert (Hne : j <> t) by (intros ->; exact (Hnotin Hj)).
+      destruct (Qi j (or_intror Hj)) as (x & Hx & Hp). exists x. rewrite nth_upd_neq by exact Hne.
+      split; assumption.
+    + intros j x Hx Hp. apply nth_upd_cases in Hx. destruct Hx as [(-> & -> & _)|(Hne & Hx)].
+      * discriminate Hp.
+      * destruct (Q2 _ _ Hx Hp) as [Heq|Hin]; [congruence|exact Hin].
+    + intros j x v Hx Hp. apply nth_upd_cases in Hx. destruct Hx as [(-> & -> & _)|(Hne & Hx)].
+      * cbn in Hp. injection Hp as <-. apply (nth_upd_eq _ _ _ _ Ew).
+      * pose proof (L2 _ _ _ Hx Hp) as Hv.
+        destruct (Nat.eq_dec v w) as [->|Hnw]; [congruence|]. rewrite nth_upd_neq by exact Hnw. exact Hv.
+    + intros j x v Hx Hp. apply nth_upd_cases in Hx. destruct Hx as [(-> & -> & _)|(Hne & Hx)].
+      * discriminate Hp.
+      * destruct (L3 _ _ _ Hx Hp) as (p & Hv & Hr).
+        destruct (Nat.eq_dec v w) as [->|Hnw].
+        -- eexists. split; [apply (nth_upd_eq _ _ _ _ Ew)|reflexivity].
+        -- exists p. rewrite nth_upd_neq by exact Hnw. split; assumption.
+    + intros Hc j x v Hx Hp. apply nth_upd_cases in Hx. destruct Hx as [(-> & -> & _)|(Hne & Hx)].
+      * discriminate Hp.
+      * pose proof (S Hc _ _ _ Hx Hp) as Hv.
+        destruct (Nat.eq_dec v w) as [->|Hnw]; [congruence|]. rewrite nth_upd_neq by exact Hnw. exact Hv.
+    + intros v Hv. exfalso.
+      destruct (Nat.eq_dec v w) as [->|Hnw].
+      * rewrite (nth_upd_eq _ _ _ _ Ew) in Hv. destruct Hv as [Hv|Hv]; discriminate Hv.
+      * rewrite nth_upd_neq in Hv by exact Hnw. destruct (T7 v Hv) as [Hq _]. discriminate Hq.
+    + exact Ja.
+    + intros p Hj. destruct (Jb p Hj) as [Hd _]. unfold all_dead in Hd.
+      pose proof (all_dead_nth _ _ _ Hd Ew) as Hx. discriminate Hx.
+    + intros Hc j x v Hx Hp. apply nth_upd_cases in Hx. destruct Hx as [(-> & -> & _)|(Hne & Hx)].
+      * discriminate Hp.
+      * pose proof (P1 Hc _ _ _ Hx Hp) as Hv.
+        destruct (Nat.eq_dec v w) as [->|Hnw]; [congruence|]. rewrite nth_upd_neq by exact Hnw. exact Hv.
+    + intros j x Hx Hp v p Hv. apply nth_upd_cases in Hx. destruct Hx as [(-> & -> & _)|(Hne & Hx)].
+      * discriminate Hp.
+      * pose proof (P2 _ _ Hx Hp _ _ Ew) as Hb. discriminate Hb.
+    + intros _ Hu. apply (f_equal (@length wpc)) in Hu. rewrite upd_length in Hu.
+      assert (w < length (ws s)) by (apply nth_error_Some; congruence).
+      cbn in Hu. lia.
+  - intros _ Hd. unfold all_dead in Hd. cbn [ws w_q w_ws w_ts] in Hd. congruence.
+Qed.
+
+Lemma ws_nonempty_upd (l : list wpc) w y p : nth_error l w = Some p -> upd l w y <> [].
+Proof.
+  intros H Hu. apply (f_equal (@length wpc)) in Hu. rewrite upd_length in Hu.
+  assert (w < length l) by (apply nth_error_Some; congruence). cbn in Hu. lia.
+Qed.
+
+Lemma step_spawn s w t s' : Inv s -> step s (ESpawn w t) = Some s' -> Inv s'.
+Proof.
+  intros [[T Q Q2 L2 L3 S T7 Ja Jb P1 P2 W0] C] H. cbn [step] in H.
+  destruct (nth_error (ws s) w) as [p|] eqn:Ew; [|discriminate H].
+  destruct p as [| |t'| | |]; try discriminate H.
+  destruct (nth_error (ts s) t) as [x0|] eqn:Et; [|discriminate H].
+  destruct (ph x0) as [|w'| | | | | |] eqn:Ep; try discriminate H.
+  destruct (Nat.eqb t' t && Nat.eqb w' w) eqn:Eb; [|discriminate H].
+  apply andb_true_iff in Eb. destruct Eb as [E1 E2]. apply Nat.eqb_eq in E1, E2. subst t' w'.
+  injection H as <-.
+  pose proof (Forall_nth _ _ _ _ T Et) as Ht0. unfold tinv in Ht0. rewrite Ep in Ht0.
+  destruct Ht0 as (Hr0 & Hs0 & Hst0 & Hrc0).
+  set (pn := if conc s then WRecv else WAwait t).
+  assert (Hpn : running_wpc pn = true) by (unfold pn; destruct (conc s); reflexivity).
+  assert (Halive : forallb is_dead (upd (ws s) w pn) = false).
+  { eapply alive_not_all_dead; [apply (nth_upd_eq _ _ _ _ Ew)|]. unfold pn. destruct (conc s); reflexivity. }
+  destruct Q as [Qn Qi].
+  split.
+  - constructor; cbn [conc sender q ws ts jp w_q w_ws w_ts].
+    + apply Forall_upd; [exact T|]. unfold tinv. cbn. rewrite Hr0, Hs0, Hst0, Hrc0. repeat split.
+    + split; [exact Qn|]. intros j Hj. destruct (Qi j Hj) as (x & Hx & Hp). exists x.
+      assert (Hne : j <> t) by (intros ->; congruence).
+      rewrite nth_upd_neq by exact Hne. split; assumption.
+    + intros j x Hx Hp. apply nth_upd_cases in Hx. destruct Hx as [(-> & -> & _)|(Hne & Hx)];
+        [discriminate Hp|eapply Q2; eauto].
+    + intros j x v Hx Hp. apply nth_upd_cases in Hx. destruct Hx as [(-> & -> & _)|(Hne & Hx)].
+      * discriminate Hp.
+      * pose proof (L2 _ _ _ Hx Hp) as Hv.
+        destruct (Nat.eq_dec v w) as [->|Hnw]; [congruence|]. rewrite nth_upd_neq by exact Hnw. exact Hv.
+    + intros j x v Hx Hp. apply nth_upd_cases in Hx. destruct Hx as [(-> & -> & _)|(Hne & Hx)].
+      * unfold on_rt in Hp. cbn in Hp. apply Nat.eqb_eq in Hp. subst v.
+        exists pn. split; [apply (nth_upd_eq _ _ _ _ Ew)|exact Hpn].
+      * destruct (L3 _ _ _ Hx Hp) as (p & Hv & Hr).
+        destruct (Nat.eq_dec v w) as [->|Hnw].
+        -- exists pn. split; [apply (nth_upd_eq _ _ _ _ Ew)|exact Hpn].
+        -- exists p. rewrite nth_upd_neq by exact Hnw. split; assumption.
+    + intros Hc j x v Hx Hp. apply nth_upd_cases in Hx. destruct Hx as [(-> & -> & _)|(Hne & Hx)].
+      * unfold on_rt in Hp. cbn in Hp. apply Nat.eqb_eq in Hp. subst v.
+        rewrite (nth_upd_eq _ _ _ _ Ew). unfold pn. rewrite Hc. reflexivity.
+      * pose proof (S Hc _ _ _ Hx Hp) as Hv.
+        destruct (Nat.eq_dec v w) as [->|Hnw]; [congruence|]. rewrite nth_upd_neq by exact Hnw. exact Hv.
+    + intros v Hv. apply T7 with (w := v).
+      destruct (Nat.eq_dec v w) as [->|Hnw].
+      * rewrite (nth_upd_eq _ _ _ _ Ew) in Hv. unfold pn in Hv.
+        destruct (conc s), Hv as [Hv|Hv]; discriminate Hv.
+      * rewrite nth_upd_neq in Hv by exact Hnw. exact Hv.
+    + exact Ja.
+    + intros p Hj. destruct (Jb p Hj) as [Hd _]. unfold all_dead in Hd.
+      pose proof (all_dead_nth _ _ _ Hd Ew) as Hx. discriminate Hx.
+    + intros Hc j x v Hx Hp. apply nth_upd_cases in Hx. destruct Hx as [(-> & -> & _)|(Hne & Hx)].
+      * discriminate Hp.
+      * pose proof (P1 Hc _ _ _ Hx Hp) as Hv.
+        destruct (Nat.eq_dec v w) as [->|Hnw]; [congruence|]. rewrite nth_upd_neq by exact Hnw. exact Hv.
+    + intros j x Hx Hp v p Hv. apply nth_upd_cases in Hx. destruct Hx as [(-> & -> & _)|(Hne & Hx)].
+      * discriminate Hp.
+      * pose proof (P2 _ _ Hx Hp _ _ Ew) as Hb. discriminate Hb.
+    + intros _. eapply ws_nonempty_upd; eauto.
+  - intros _ Hd. unfold all_dead in Hd. cbn [ws w_q w_ws w_ts] in Hd. congruence.
+Qed.
+
+Lemma step_start s w t s' : Inv s -> step s (EStart w t) = Some s' -> Inv s'.
+Proof.
+  intros [[T Q Q2 L2 L3 S T7 Ja Jb P1 P2 W0] C] H. cbn [step] in H.
+  destruct (nth_error (ws s) w) as [p|] eqn:Ew; [|discriminate H].
+  destruct (nth_error (ts s) t) as [x0|] eqn:Et; [|discriminate H].
+  destruct (ph x0) as [| |w'| | | | |] eqn:Ep; try discriminate H.
+  destruct (alive_wpc p && Nat.eqb w' w) eqn:Eb; [|discriminate H].
+  apply andb_true_iff in Eb. destruct Eb as [E1 E2]. apply Nat.eqb_eq in E2. subst w'.
+  injection H as <-.
+  pose proof (Forall_nth _ _ _ _ T Et) as Ht0. unfold tinv in Ht0. rewrite Ep in Ht0.
+  destruct Ht0 as (Hr0 & Hs0 & Hst0 & Hrc0).
+  assert (Hon : on_rt w x0 = true) by (unfold on_rt; rewrite Ep; apply Nat.eqb_refl).
+  destruct Q as [Qn Qi].
+  split.
+  - constructor; cbn [conc sender q ws ts jp w_q w_ws w_ts]; auto.
+    + apply Forall_upd; [exact T|]. unfold tinv. cbn. rewrite Hr0, Hs0, Hst0, Hrc0. repeat split.
+    + split; [exact Qn|]. intros j Hj. destruct (Qi j Hj) as (x & Hx & Hp). exists x.
+      assert (Hne : j <> t) by (intros ->; congruence).
+      rewrite nth_upd_neq by exact Hne. split; assumption.
+    + intros j x Hx Hp. apply nth_upd_cases in Hx. destruct Hx as [(-> & -> & _)|(Hne & Hx)];
+        [discriminate Hp|eapply Q2; eauto].
+    + intros j x v Hx Hp. apply nth_upd_cases in Hx. destruct Hx as [(-> & -> & _)|(Hne & Hx)];
+        [discriminate Hp|eapply L2; eauto].
+    + intros j x v Hx Hp. apply nth_upd_cases in Hx. destruct Hx as [(-> & -> & _)|(Hne & Hx)].
+      * unfold on_rt in Hp. cbn in Hp. apply Nat.eqb_eq in Hp. subst v. eapply L3; eauto.
+      * eapply L3; eauto.
+    + intros Hc j x v Hx Hp. apply nth_upd_cases in Hx. destruct Hx as [(-> & -> & _)|(Hne & Hx)].
+      * unfold on_rt in Hp. cbn in Hp. apply Nat.eqb_eq in Hp. subst v. eapply S; eauto.
+      * eapply S; eauto.
+    + intros Hc j x v Hx Hp. apply nth_upd_cases in Hx. destruct Hx as [(-> & -> & _)|(Hne & Hx)];
+        [discriminate Hp|eapply P1; eauto].
+    + intros j x Hx Hp. apply nth_upd_cases in Hx. destruct Hx as [(-> & -> & _)|(Hne & Hx)];
+        [discriminate Hp|eapply P2; eauto].
+    + intros _. apply W0. intros Hn. rewrite Hn in Et. destruct t; discriminate Et.
+  - exact C.
+Qed.
+
+Lemma step_finish s w t ok s' : Inv s -> step s (EFinish w t ok) = Some s' -> Inv s'.
+Proof.
+  intros [[T Q Q2 L2 L3 S T7 Ja Jb P1 P2 W0] C] H. cbn [step] in H.
+  destruct (nth_error (ws s) w) as [p|] eqn:Ew; [|discriminate H].
+  destruct (nth_error (ts s) t) as [x0|] eqn:Et; [|discriminate H].
+  destruct (ph x0) as [| | |w'| | | |] eqn:Ep; try discriminate H.
+  destruct (alive_wpc p && Nat.eqb w' w) eqn:Eb; [|discriminate H].
+  apply andb_true_iff in Eb. destruct Eb as [E1 E2]. apply Nat.eqb_eq in E2. subst w'.
+  unfold alive_wpc in E1. apply negb_true_iff in E1.
+  injection H as <-.
+  pose proof (Forall_nth _ _ _ _ T Et) as Ht0. unfold tinv in Ht0. rewrite Ep in Ht0.
+  destruct Ht0 as (Hr0 & Hs0 & Hst0 & Hrc0).
+  assert (Hon : on_rt w x0 = true) by (unfold on_rt; rewrite Ep; apply Nat.eqb_refl).
+  destruct (L3 _ _ _ Et Hon) as (p' & Hp' & Hrun). rewrite Ew in Hp'. injection Hp' as <-.
+  set (ws' := match p with
+              | WAwait t' => if Nat.eqb t' t then upd (ws s) w WRecv else ws s
+              | _ => ws s
+              end).
+  (* the worker is still running afterwards; other workers are untouched *)
+  assert (Hw_same : forall v, v <> w -> nth_error ws' v = nth_error (ws s) v).
+  { intros v Hv. unfold ws'. destruct p; try reflexivity. destruct (Nat.eqb t0 t); [|reflexivity].
+    apply nth_upd_neq. exact Hv. }
+  assert (Hw_w : exists pn, nth_error ws' w = Some pn /\ running_wpc pn = true /\
+                            (pn = p \/ (pn = WRecv /\ p = WAwait t))).
+  { unfold ws'. destruct p; try (eexists; split; [exact Ew|split; [exact Hrun|left; reflexivity]]).
+    destruct (Nat.eqb t0 t) eqn:E0.
+    - apply Nat.eqb_eq in E0. subst t0. exists WRecv. split; [apply (nth_upd_eq _ _ _ _ Ew)|].
+      split; [reflexivity|right; split; reflexivity].
+    - eexists; split; [exact Ew|split; [exact Hrun|left; reflexivity]]. }
+  destruct Hw_w as (pn & Hpn & Hpnr & Hpn_or).
+  assert (Hpn_alive : is_dead pn = false) by (destruct pn; try reflexivity; discriminate Hpnr).
+  destruct Q as [Qn Qi].
+  split.
+  - constructor; cbn [conc sender q ws ts jp w_q w_ws w_ts].
+    + apply Forall_upd; [exact T|]. unfold tinv. destruct ok; cbn; rewrite Hr0, Hs0, Hst0; repeat split.
+    + split; [exact Qn|]. intros j Hj. destruct (Qi j Hj) as (x & Hx & Hp). exists x.
+      assert (Hne : j <> t) by (intros ->; congruence).
+      rewrite nth_upd_neq by exact Hne. split; assumption.
+    + intros j x Hx Hp. apply nth_upd_cases in Hx. destruct Hx as [(-> & -> & _)|(Hne & Hx)];
+        [destruct ok; discriminate Hp|eapply Q2; eauto].
+    + intros j x v Hx Hp. apply nth_upd_cases in Hx. destruct Hx as [(-> & -> & _)|(Hne & Hx)];
+        [destruct ok; discriminate Hp|].
+      pose proof (L2 _ _ _ Hx Hp) as Hv. destruct (Nat.eq_dec v w) as [->|Hnw].
+      * rewrite Hpn. rewrite Ew in Hv. injection Hv as Hv.
+        destruct Hpn_or as [->|[_ Hpa]]; [rewrite Hv; reflexivity|congruence].
+      * rewrite Hw_same by exact Hnw. exact Hv.
+    + intros j x v Hx Hp. apply nth_upd_cases in Hx. destruct Hx as [(-> & -> & _)|(Hne & Hx)];
+        [destruct ok; discriminate Hp|].
+      destruct (L3 _ _ _ Hx Hp) as (p0 & Hv & Hr). destruct (Nat.eq_dec v w) as [->|Hnw].
+      * exists pn. split; assumption.
+      * exists p0. rewrite Hw_same by exact Hnw. split; assumption.
+    + intros Hc j x v Hx Hp. apply nth_upd_cases in Hx. destruct Hx as [(-> & -> & _)|(Hne & Hx)];
+        [destruct ok; discriminate Hp|].
+      pose proof (S Hc _ _ _ Hx Hp) as Hv. destruct (Nat.eq_dec v w) as [->|Hnw].
+      * (* the awaited task is the only one on this runtime *)
+        pose proof (S Hc _ _ _ Et Hon) as Hv2. rewrite Hv in Hv2. injection Hv2 as Hjt. congruence.
+      * rewrite Hw_same by exact Hnw. exact Hv.
+    + intros v Hv. apply T7 with (w := v). destruct (Nat.eq_dec v w) as [->|Hnw].
+      * rewrite Hpn in Hv. destruct Hpn_or as [->|[-> _]]; [rewrite Ew; exact Hv|].
+        destruct Hv as [Hv|Hv]; discriminate Hv.
+      * rewrite Hw_same in Hv by exact Hnw. exact Hv.
+    + exact Ja.
+    + intros p0 Hj. destruct (Jb p0 Hj) as [Hd _]. unfold all_dead in Hd.
+      pose proof (all_dead_nth _ _ _ Hd Ew) as Hx. congruence.
+    + intros Hc j x v Hx Hp. apply nth_upd_cases in Hx. destruct Hx as [(-> & -> & _)|(Hne & Hx)];
+        [destruct ok; discriminate Hp|].
+      pose proof (P1 Hc _ _ _ Hx Hp) as Hv. destruct (Nat.eq_dec v w) as [->|Hnw].
+      * rewrite Ew in Hv. injection Hv as ->. discriminate E1.
+      * rewrite Hw_same by exact Hnw. exact Hv.
+    + intros j x Hx Hp v p0 Hv. apply nth_upd_cases in Hx. destruct Hx as [(-> & -> & _)|(Hne & Hx)];
+        [destruct ok; discriminate Hp|].
+      pose proof (P2 _ _ Hx Hp _ _ Ew) as Hb. subst p. discriminate E1.
+    + intros _ Hn. rewrite Hn in Hpn. destruct w; discriminate Hpn.
+  - intros _ Hd. unfold all_dead in Hd. cbn [ws w_q w_ws w_ts] in Hd.
+    rewrite (alive_not_all_dead _ _ _ Hpn Hpn_alive) in Hd. discriminate Hd.
+Qed.
+
+Lemma step_leave s w s' : Inv s -> step s (ELeave w) = Some s' -> Inv s'.
+Proof.
+  intros [[T Q Q2 L2 L3 S T7 Ja Jb P1 P2 W0] C] H. cbn [step] in H.
+  destruct (nth_error (ws s) w) as [p|] eqn:Ew; [|discriminate H].
+  destruct p; try discriminate H.
+  destruct (q s) eqn:Eq; [|discriminate H].
+  destruct (sender s) eqn:Es; [discriminate H|]. injection H as <-.
+  split.
+  - constructor; cbn [conc sender q ws ts jp w_q w_ws w_ts].
+    + exact T.
+    + rewrite Eq. exact Q.
+    + rewrite Eq. exact Q2.
+    + intros t x v Hx Hp. pose proof (L2 _ _ _ Hx Hp) as Hv.
+      destruct (Nat.eq_dec v w) as [->|Hne]; [congruence|]. rewrite nth_upd_neq by exact Hne. exact Hv.
+    + intros t x v Hx Hp. destruct (L3 _ _ _ Hx Hp) as (p & Hv & Hr).
+      destruct (Nat.eq_dec v w) as [->|Hne].
+      * eexists. split; [apply (nth_upd_eq _ _ _ _ Ew)|reflexivity].
+      * exists p. rewrite nth_upd_neq by exact Hne. split; assumption.
+    + intros Hc t x v Hx Hp. pose proof (S Hc _ _ _ Hx Hp) as Hv.
+      destruct (Nat.eq_dec v w) as [->|Hne]; [congruence|]. rewrite nth_upd_neq by exact Hne. exact Hv.
+    + intros v _. split; [exact Eq|exact Es].
+    + rewrite Es. exact Ja.
+    + intros p Hj. destruct (Jb p Hj) as [Hd _]. unfold all_dead in Hd.
+      pose proof (all_dead_nth _ _ _ Hd Ew) as Hx. discriminate Hx.
+    + intros Hc t x v Hx Hp. pose proof (P1 Hc _ _ _ Hx Hp) as Hv.
+      destruct (Nat.eq_dec v w) as [->|Hne]; [congruence|]. rewrite nth_upd_neq by exact Hne. exact Hv.
+    + intros t x Hx Hp v p Hv. pose proof (P2 _ _ Hx Hp _ _ Ew) as Hb. discriminate Hb.
+    + intros _. eapply ws_nonempty_upd; eauto.
+  - intros _ _. cbn. exact Eq.
+Qed.
+
+(* a worker ends (normally or by a panic): its unfinished tasks are dropped *)
+Lemma worker_ends s w pold b :
+  Inv s -> nth_error (ws s) w = Some pold ->
+  (pold = WLeaving /\ b = false) \/ ((pold = WRecv \/ exists t, pold = WAwait t) /\ b = true) ->
+  Inv (cleanup (w_ws (upd (ws s) w (WDead b)) (w_ts (map (cancel_on w) (ts s)) s))).
+Proof.
+  intros [[T Q Q2 L2 L3 S T7 Ja Jb P1 P2 W0] C] Ew Hold. apply cleanup_inv.
+  assert (Hold_alive : is_dead pold = false).
+  { destruct Hold as [[-> _]|[[->|(t & ->)] _]]; reflexivity. }
+  assert (Hold_nospawn : forall t, pold <> WSpawn t).
+  { intros t. destruct Hold as [[-> _]|[[->|(t' & ->)] _]]; discriminate. }
+  destruct Q as [Qn Qi].
+  constructor; cbn [conc sender q ws ts jp w_q w_ws w_ts].
+  - rewrite Forall_forall in *. intros y Hy. apply in_map_iff in Hy.
+    destruct Hy as (x & <- & Hx). apply co_tinv, T, Hx.
+  - split; [exact Qn|]. intros t Ht. destruct (Qi t Ht) as (x & Hx & Hp).
+    exists (cancel_on w x). split; [rewrite nth_error_map, Hx; reflexivity|].
+    rewrite co_ph. unfold on_rt. rewrite Hp. reflexivity.
+  - intros t y Hy Hp. apply nth_map_inv in Hy. destruct Hy as (x & Hx & ->).
+    rewrite co_ph in Hp. destruct (on_rt w x); [discriminate Hp|]. eapply Q2; eauto.
+  - intros t y v Hy Hp. apply nth_map_inv in Hy. destruct Hy as (x & Hx & ->).
+    rewrite co_ph in Hp. destruct (on_rt w x); [discriminate Hp|].
+    pose proof (L2 _ _ _ Hx Hp) as Hv. destruct (Nat.eq_dec v w) as [->|Hne].
+    + rewrite Ew in Hv. injection Hv as Hv. exfalso. exact (Hold_nospawn _ Hv).
+    + rewrite nth_upd_neq by exact Hne. exact Hv.
+  - intros t y v Hy Hp. apply nth_map_inv in Hy. destruct Hy as (x & Hx & ->).
+    apply co_on_rt in Hp. destruct Hp as [Hp Hnw].
+    assert (Hne : v <> w) by (intros ->; congruence).
+    destruct (L3 _ _ _ Hx Hp) as (p & Hv & Hr). exists p. rewrite nth_upd_neq by exact Hne.
+    split; assumption.
+  - intros Hc t y v Hy Hp. apply nth_map_inv in Hy. destruct Hy as (x & Hx & ->).
+    apply co_on_rt in Hp. destruct Hp as [Hp Hnw].
+    assert (Hne : v <> w) by (intros ->; congruence).
+    rewrite nth_upd_neq by exact Hne. eapply S; eauto.
+  - intros v Hv. destruct (Nat.eq_dec v w) as [->|Hne].
+    + rewrite (nth_upd_eq _ _ _ _ Ew) in Hv.
+      destruct Hold as [[-> ->]|[_ ->]].
+      * apply T7 with (w := w). left. exact Ew.
+      * destruct Hv as [Hv|Hv]; discriminate Hv.
+    + rewrite nth_upd_neq in Hv by exact Hne. apply T7 with (w := v). exact Hv.
+  - exact Ja.
+  - intros p Hj. destruct (Jb p Hj) as [Hd _]. unfold all_dead in Hd.
+    pose proof (all_dead_nth _ _ _ Hd Ew) as Hx. congruence.
+  - intros Hc t y v Hy Hp. apply nth_map_inv in Hy. destruct Hy as (x & Hx & ->).
+    rewrite co_ph in Hp. destruct (on_rt w x) eqn:Eo.
+    + injection Hp as <-. rewrite (nth_upd_eq _ _ _ _ Ew).
+      pose proof (S Hc _ _ _ Hx Eo) as Hv. rewrite Ew in Hv. injection Hv as ->.
+      destruct Hold as [[Hx0 _]|[_ ->]]; [discriminate Hx0|reflexivity].
+    + pose proof (P1 Hc _ _ _ Hx Hp) as Hv. destruct (Nat.eq_dec v w) as [->|Hne].
+      * rewrite Ew in Hv. injection Hv as ->. discriminate Hold_alive.
+      * rewrite nth_upd_neq by exact Hne. exact Hv.
+  - intros t y Hy Hp v p Hv. apply nth_map_inv in Hy. destruct Hy as (x & Hx & ->).
+    rewrite co_ph in Hp. destruct (on_rt w x); [discriminate Hp|].
+    pose proof (P2 _ _ Hx Hp _ _ Ew) as Hb. subst pold. discriminate Hold_alive.
+  - intros _. eapply ws_nonempty_upd; eauto.
+Qed.
+
+Lemma step_exit s w s' : Inv s -> step s (EExit w) = Some s' -> Inv s'.
+Proof.
+  intros Hi H. cbn [step] in H.
+  destruct (nth_error (ws s) w) as [p|] eqn:Ew; [|discriminate H].
+  destruct p; try discriminate H. injection H as <-.
+  eapply worker_ends; [exact Hi|exact Ew|]. left. split; reflexivity.
+Qed.
+
+Lemma step_panic s w s' : Inv s -> step s (EPanic w) = Some s' -> Inv s'.
+Proof.
+  intros Hi H. cbn [step] in H.
+  destruct (nth_error (ws s) w) as [p|] eqn:Ew; [|discriminate H].
+  destruct p; try discriminate H; injection H as <-;
+    (eapply worker_ends; [exact Hi|exact Ew|]); right; (split; [|reflexivity]).
+  - left. reflexivity.
+  - right. eexists. reflexivity.
+Qed.
+
+Lemma step_join_begin s s' : Inv s -> step s EJoinBegin = Some s' -> Inv s'.
+Proof.
+  intros [[T Q Q2 L2 L3 S T7 Ja Jb P1 P2 W0] C] H. cbn [step] in H.
+  assert (Ej : jp s = JIdle) by (destruct (jp s); try discriminate H; reflexivity).
+  rewrite Ej in H. injection H as <-. apply cleanup_inv.
+  assert (Hs : sender s = true) by (apply Ja; exact Ej).
+  constructor; cbn [conc sender q ws ts jp w_jp w_sender]; auto.
+  - intros w Hw. destruct (T7 w Hw) as [_ Hx]. congruence.
+  - split; intros Hx; discriminate Hx.
+  - intros p Hx. discriminate Hx.
+Qed.
+
+Lemma step_join_return s p s' : Inv s -> step s (EJoinReturn p) = Some s' -> Inv s'.
+Proof.
+  intros [[T Q Q2 L2 L3 S T7 Ja Jb P1 P2 W0] C] H. cbn [step] in H.
+  assert (Ej : jp s = JWaiting) by (destruct (jp s); try discriminate H; reflexivity).
+  rewrite Ej in H.
+  destruct (all_dead s && Bool.eqb p (existsb is_panicked (ws s))) eqn:E; [|discriminate H].
+  apply andb_true_iff in E. destruct E as [Ed Ep]. apply Bool.eqb_prop in Ep.
+  injection H as <-.
+  split; [|exact C].
+  constructor; cbn [conc sender q ws ts jp w_jp]; auto.
+  - split; intros Hx; [discriminate Hx|]. apply Ja in Hx. congruence.
+  - intros p0 Hx. injection Hx as <-. split; [exact Ed|exact Ep].
+Qed.
+
+Theorem step_inv s e s' : Inv s -> step s e = Some s' -> Inv s'.
+Proof.
+  intros Hi H. destruct e.
+  - destruct ok; [eapply step_dispatch; eauto|].
+    cbn [step] in H. destruct (jp s); try discriminate H.
+    destruct (any_alive s); [discriminate H|]. injection H as <-. exact Hi.
+  - eapply step_boot; eauto.
+  - eapply step_recv; eauto.
+  - eapply step_spawn; eauto.
+  - eapply step_start; eauto.
+  - eapply step_finish; eauto.
+  - eapply step_leave; eauto.
+  - eapply step_exit; eauto.
+  - eapply step_panic; eauto.
+  - eapply step_join_begin; eauto.
+  - eapply step_join_return; eauto.
+Qed.
+
+Theorem steps_inv : forall es s s', Inv s -> steps s es = Some s' -> Inv s'.
+Proof.
+  induction es as [|e es IH]; intros s s' Hi Hs; cbn [steps] in Hs.
+  - injection Hs as <-. exact Hi.
+  - destruct (step s e) as [s1|] eqn:H1; [|discriminate].
+    eapply IH; [eapply step_inv; eauto | exact Hs].
+Qed.
+
+Theorem reachable_inv c n es s : steps (init c n) es = Some s -> Inv s.
+Proof. intros H. eapply steps_inv; [apply init_inv | exact H]. Qed.
+
+(* ---------------------------------------------------------------------- *)
+(* consequences                                                            *)
+
+(* every accepted closure is received at most once, spawned at most once (by
+   the worker that received it), called at most once *)
+Theorem started_once c n es s t x :
+  steps (init c n) es = Some s -> nth_error (ts s) t = Some x ->
+  recvs x <= 1 /\ spawns x <= 1 /\ starts x <= 1 /\ spawns x <= recvs x /\ starts x <= spawns x.
+Proof.
+  intros H Hx. destruct (reachable_inv _ _ _ _ H) as [[T _ _ _ _ _ _ _ _ _ _ _] _].
+  pose proof (Forall_nth _ _ _ _ T Hx) as Ht. unfold tinv in Ht.
+  destruct (ph x); destruct Ht as (-> & -> & Hs & _); try rewrite Hs; lia.
+Qed.
+
+(* a task is polled only by the runtime it was spawned on *)
+Theorem polled_by_owner s w t s' ok :
+  (step s (EStart w t) = Some s' \/ step s (EFinish w t ok) = Some s') ->
+  exists x, nth_error (ts s) t = Some x /\ on_rt w x = true.
+Proof.
+  intros [H|H]; cbn [step] in H;
+    destruct (nth_error (ws s) w) as [p|]; try discriminate H;
+    destruct (nth_error (ts s) t) as [x|] eqn:Et; try discriminate H;
+    destruct (ph x) eqn:Ep; try discriminate H;
+    destruct (alive_wpc p && Nat.eqb w0 w) eqn:E; try discriminate H;
+    apply andb_true_iff in E; destruct E as [_ E];
+    exists x; (split; [reflexivity|]); unfold on_rt; rewrite Ep; exact E.
+Qed.
+
+Lemma panicked_exists l w : nth_error l w = Some (WDead true) -> existsb is_panicked l = true.
+Proof. intros H. apply existsb_exists. exists (WDead true). split; [eapply nth_error_In; eauto|reflexivity]. Qed.
+
+(* once join has returned no receiver is left empty *)
+Theorem result_or_cancel c n es s p t x :
+  steps (init c n) es = Some s -> jp s = JReturned p -> nth_error (ts s) t = Some x ->
+  rc x = RResult \/ rc x = RCanceled.
+Proof.
+  intros H Hj Hx. destruct (reachable_inv _ _ _ _ H) as [[T Q Q2 L2 L3 S T7 Ja Jb P1 P2 W0] C].
+  destruct (Jb p Hj) as [Hd _].
+  assert (Hs : sender s = false).
+  { destruct (sender s) eqn:E; [|reflexivity]. assert (X : jp s = JIdle) by (apply Ja; reflexivity). congruence. }
+  pose proof (C Hs Hd) as Hq.
+  pose proof (Forall_nth _ _ _ _ T Hx) as Ht. unfold tinv in Ht.
+  destruct (ph x) eqn:Ep.
+  - pose proof (Q2 _ _ Hx Ep) as Hin. rewrite Hq in Hin. destruct Hin.
+  - pose proof (L2 _ _ _ Hx Ep) as Hw. pose proof (all_dead_nth _ _ _ Hd Hw) as Hb. discriminate Hb.
+  - assert (Ho : on_rt w x = true) by (unfold on_rt; rewrite Ep; apply Nat.eqb_refl).
+    destruct (L3 _ _ _ Hx Ho) as (pw & Hw & Hr). pose proof (all_dead_nth _ _ _ Hd Hw) as Hb.
+    destruct pw; discriminate.
+  - assert (Ho : on_rt w x = true) by (unfold on_rt; rewrite Ep; apply Nat.eqb_refl).
+    destruct (L3 _ _ _ Hx Ho) as (pw & Hw & Hr). pose proof (all_dead_nth _ _ _ Hd Hw) as Hb.
+    destruct pw; discriminate.
+  - left. apply Ht.
+  - right. apply Ht.
+  - right. apply Ht.
+  - right. apply Ht.
+Qed.
+
+(* ... and if at least one worker left its loop normally, every accepted
+   closure was received and spawned exactly once *)
+Theorem started_exactly_once c n es s p w t x :
+  steps (init c n) es = Some s -> jp s = JReturned p ->
+  nth_error (ws s) w = Some (WDead false) -> nth_error (ts s) t = Some x ->
+  recvs x = 1 /\ spawns x = 1.
+Proof.
+  intros H Hj Hw Hx. destruct (reachable_inv _ _ _ _ H) as [[T Q Q2 L2 L3 S T7 Ja Jb P1 P2 W0] C].
+  destruct (Jb p Hj) as [Hd _]. destruct (T7 w (or_intror Hw)) as [Hq _].
+  pose proof (Forall_nth _ _ _ _ T Hx) as Ht. unfold tinv in Ht.
+  destruct (ph x) eqn:Ep; try (destruct Ht as (-> & -> & _); split; reflexivity).
+  - pose proof (Q2 _ _ Hx Ep) as Hin. rewrite Hq in Hin. destruct Hin.
+  - pose proof (L2 _ _ _ Hx Ep) as Hv. pose proof (all_dead_nth _ _ _ Hd Hv) as Hb. discriminate Hb.
+  - pose proof (P2 _ _ Hx Ep _ _ Hw) as Hb. discriminate Hb.
+Qed.
+
+Lemma cleanup_conc s : conc (cleanup s) = conc s.
+Proof. unfold cleanup. destruct (negb (sender s) && all_dead s); reflexivity. Qed.
+
+Lemma step_conc s e s' : step s e = Some s' -> conc s' = conc s.
+Proof.
+  intros E. destruct e; cbn [step] in E;
+    repeat match type of E with
+           | context [match ?x with _ => _ end] => destruct x eqn:?; try discriminate E
+           end;
+    injection E as <-; rewrite ?cleanup_conc; cbn [conc w_q w_ws w_ts w_jp w_sender]; congruence.
+Qed.
+
+Lemma steps_conc : forall es s s', steps s es = Some s' -> conc s' = conc s.
+Proof.
+  induction es as [|e es IH]; intros s s' Hs; cbn [steps] in Hs.
+  - injection Hs as <-. reflexivity.
+  - destruct (step s e) as [s1|] eqn:E; [|discriminate].
+    rewrite (IH _ _ Hs). eapply step_conc; eauto.
+Qed.
+
+(* sequential mode: a worker never has two unfinished tasks *)
+Theorem sequential_no_overlap n es s w t1 t2 x1 x2 :
+  steps (init false n) es = Some s ->
+  nth_error (ts s) t1 = Some x1 -> nth_error (ts s) t2 = Some x2 ->
+  on_rt w x1 = true -> on_rt w x2 = true -> t1 = t2.
+Proof.
+  intros H H1 H2 O1 O2. destruct (reachable_inv _ _ _ _ H) as [[T Q Q2 L2 L3 S T7 Ja Jb P1 P2 W0] C].
+  assert (Hc : conc s = false) by (rewrite (steps_conc _ _ _ H); reflexivity).
+  pose proof (S Hc _ _ _ H1 O1) as A1. pose proof (S Hc _ _ _ H2 O2) as A2. congruence.
+Qed.
+
+(* sequential mode: when join returns without re-raising a panic, every accepted
+   closure ran to its end (its own panic included) and none was cancelled *)
+Theorem sequential_all_finish n es s t x :
+  steps (init false n) es = Some s -> jp s = JReturned false -> nth_error (ts s) t = Some x ->
+  (exists w, ph x = TDone w /\ rc x = RResult) \/
+  (exists w, ph x = TPanicked w /\ rc x = RCanceled).
+Proof.
+  intros H Hj Hx. destruct (reachable_inv _ _ _ _ H) as [[T Q Q2 L2 L3 S T7 Ja Jb P1 P2 W0] C].
+  assert (Hc : conc s = false) by (rewrite (steps_conc _ _ _ H); reflexivity).
+  destruct (Jb _ Hj) as [Hd Hp].
+  assert (Hs : sender s = false).
+  { destruct (sender s) eqn:E; [|reflexivity]. assert (X : jp s = JIdle) by (apply Ja; reflexivity). congruence. }
+  pose proof (C Hs Hd) as Hq.
+  pose proof (Forall_nth _ _ _ _ T Hx) as Ht. unfold tinv in Ht.
+  destruct (ph x) eqn:Ep.
+  - pose proof (Q2 _ _ Hx Ep) as Hin. rewrite Hq in Hin. destruct Hin.
+  - pose proof (L2 _ _ _ Hx Ep) as Hw. pose proof (all_dead_nth _ _ _ Hd Hw) as Hb. discriminate Hb.
+  - assert (Ho : on_rt w x = true) by (unfold on_rt; rewrite Ep; apply Nat.eqb_refl).
+    destruct (L3 _ _ _ Hx Ho) as (pw & Hw & Hr). pose proof (all_dead_nth _ _ _ Hd Hw) as Hb.
+    destruct pw; discriminate.
+  - assert (Ho : on_rt w x = true) by (unfold on_rt; rewrite Ep; apply Nat.eqb_refl).
+    destruct (L3 _ _ _ Hx Ho) as (pw & Hw & Hr). pose proof (all_dead_nth _ _ _ Hd Hw) as Hb.
+    destruct pw; discriminate.
+  - left. exists w. split; [reflexivity|apply Ht].
+  - right. exists w. split; [reflexivity|apply Ht].
+  - pose proof (P1 Hc _ _ _ Hx Ep) as Hw. rewrite (panicked_exists _ _ Hw) in Hp. discriminate Hp.
+  - assert (Hne : ws s <> []).
+    { apply W0. intros Hn. rewrite Hn in Hx. destruct t; discriminate Hx. }
+    assert (H0 : exists p0, nth_error (ws s) 0 = Some p0).
+    { destruct (ws s) as [|p0 l]; [congruence|]. exists p0. reflexivity. }
+    destruct H0 as [p0 H0]. pose proof (P2 _ _ Hx Ep _ _ H0) as Hb. subst p0.
+    rewrite (panicked_exists _ _ H0) in Hp. discriminate Hp.
+Qed.
+
+(* join returns only after every worker thread has ended, and re-raises a
+   worker's panic *)
+Theorem join_after_exit c n es s p s' :
+  steps (init c n) es = Some s -> step s (EJoinReturn p) = Some s' ->
+  all_dead s = true /\ (p = true <-> exists w, nth_error (ws s) w = Some (WDead true)) /\
+  jp s' = JReturned p.
+Proof.
+  intros _ H. cbn [step] in H. destruct (jp s); try discriminate H.
+  destruct (all_dead s && Bool.eqb p (existsb is_panicked (ws s))) eqn:E; [|discriminate H].
+  apply andb_true_iff in E. destruct E as [Ed Ep]. apply Bool.eqb_prop in Ep.
+  injection H as <-. split; [exact Ed|]. split; [|reflexivity].
+  rewrite Ep. split.
+  - intros Hx. apply existsb_exists in Hx. destruct Hx as (pw & Hin & Hpw).
+    apply In_nth_error in Hin. destruct Hin as [w Hw]. exists w.
+    destruct pw as [| | | | |b]; try discriminate Hpw. destruct b; [exact Hw|discriminate Hpw].
+  - intros (w & Hw). eapply panicked_exists; eauto.
+Qed.
+
+Theorem joined_all_dead c n es s p :
+  steps (init c n) es = Some s -> jp s = JReturned p ->
+  all_dead s = true /\ p = existsb is_panicked (ws s).
+Proof.
+  intros H Hj. destruct (reachable_inv _ _ _ _ H) as [[T Q Q2 L2 L3 S T7 Ja Jb P1 P2 W0] C].
+  exact (Jb p Hj).
+Qed.
+
+(* join consumes the dispatcher: nothing is accepted afterwards *)
+Theorem no_dispatch_after_join s ok : jp s <> JIdle -> step s (EDispatch ok) = None.
+Proof. intros H. cbn [step]. destruct (jp s); [congruence|reflexivity|reflexivity]. Qed.
